@@ -1414,7 +1414,7 @@ class VarSub(Vars):
 
     def __le__(self, other):
 
-        if isinstance(other, Real):
+        if isinstance(other, Real) and self.model.mtype not in 'EP':
             upper = upper = super().__le__(other)
             indices = self.indices.reshape((self.indices.size, ))
             bound_indices = upper.indices.reshape((upper.indices.size, ))[indices]
@@ -1425,7 +1425,7 @@ class VarSub(Vars):
 
     def __ge__(self, other):
 
-        if isinstance(other, Real):
+        if isinstance(other, Real) and self.model.mtype not in 'EP':
             lower = super().__ge__(other)
             indices = self.indices.reshape((self.indices.size, ))
             bound_indices = lower.indices.reshape((lower.indices.size, ))[indices]
